@@ -268,6 +268,33 @@ func (b *bp) nilPosts(fn *ssa.Function) []nilPost {
 		var dqs []diseq
 		f.pathFacts(blk, &facts, &dqs)
 		here := map[nilPost]bool{}
+		// the parameters themselves (len(s) >= 5 after HasPrefix(s, "vers:") held on the way to `return nil`)
+		for _, par := range fn.Params {
+			isL := hasLen(par.Type())
+			if !isL && !isIntType(par.Type()) {
+				continue
+			}
+			key, ok := f.exprKey(par, params, 0)
+			if !ok {
+				continue
+			}
+			var t term
+			var o int64
+			if isL {
+				t, o = f.lenTerm(par)
+			} else {
+				t, o = f.intTerm(par)
+			}
+			if lb, ok := bound(facts, t, false); ok {
+				lb += o
+				if !(isL && lb <= 0) {
+					here[nilPost{key, isL, false, lb}] = true
+				}
+			}
+			if ub, ok := bound(facts, t, true); ok {
+				here[nilPost{key, isL, true, ub + o}] = true
+			}
+		}
 		// candidate expressions: every len-bearing or int value in the function with a parameter-rooted key
 		for _, b2 := range fn.Blocks {
 			if !b2.Dominates(blk) {
@@ -487,6 +514,27 @@ func (f *bpFn) errNilFacts(bo *ssa.BinOp, tv bool, out *[]dfact) {
 		}
 	}
 	for _, np := range posts {
+		// a bound on a parameter itself is a bound on the argument
+		if strings.HasPrefix(np.key, "P") && !strings.ContainsAny(np.key, "([ ") {
+			var idx int
+			if _, err := fmt.Sscanf(np.key, "P%d", &idx); err == nil && idx < len(c.Call.Args) && fmt.Sprintf("P%d", idx) == np.key {
+				a := c.Call.Args[idx]
+				var t term
+				var o int64
+				if np.isLen {
+					t, o = f.lenTerm(a)
+				} else {
+					t, o = f.intTerm(a)
+				}
+				why := fmt.Sprintf("postcondition of %s returning nil error (bound on its argument)", fn.Name())
+				if np.upper {
+					*out = append(*out, dfact{t, zeroT, np.c - o, why})
+				} else {
+					*out = append(*out, dfact{zeroT, t, o - np.c, why})
+				}
+				continue
+			}
+		}
 		k := np.key
 		for pk, ak := range argKeys {
 			k = strings.ReplaceAll(k, pk, ak)
